@@ -86,7 +86,10 @@ Inductive observation :=
    get_features_matching / get_records_matching list) *)
 | ObsDb (rows : list AnnotDb.row)
 | ObsSeqDb (o : (list Z * Z * (Z * Z * Z) * kind) * option (list Z) * dict) (rows : list AnnotDb.row)
-| ObsMolType (label : list Z).
+| ObsMolType (label : list Z)
+| ObsAlphabet (a : alphabet)
+| ObsAlignmentDb (k : kind) (info : dict) (rows : list (list Z * IndelMap.imap * ((list Z * Z * (Z * Z * Z) * kind) * option (list Z) * dict)))
+                 (db : list AnnotDb.row).
 
 Definition observe (x : obj) : observation :=
   match x with
@@ -105,6 +108,8 @@ Definition observe (x : obj) : observation :=
   | ODb tables rows => ObsDb (AnnotDbSpec.records_in_tables tables rows)
   | OSeqDb s tables rows => ObsSeqDb (observe_seq s) (AnnotDbSpec.records_in_tables tables rows)
   | OMolType l => ObsMolType l
+  | OAlphabet a => ObsAlphabet a
+  | OAlignmentDb k inf rows tables db => ObsAlignmentDb k inf (map observe_aligned rows) (AnnotDbSpec.records_in_tables tables db)
   end.
 
 (** the objects the round-trip theorem covers: well-formed views that fit their parent,
@@ -172,4 +177,6 @@ Definition obj_ok (x : obj) : Prop :=
   | ODb tables rows => db_ok tables rows
   | OSeqDb s tables rows => seq_ok s /\ db_ok tables rows /\ rows <> []
   | OMolType l => mem_str l moltype_labels = true
+  | OAlphabet a => mem_str (al_label a) moltype_labels = true
+  | OAlignmentDb _ _ rows tables db => Forall aligned_ok rows /\ db_ok tables db /\ db <> []
   end.
